@@ -189,6 +189,41 @@ def phase_truncate_repeat(ctx, R, orc, r, cat, n, states):
         ctx.count(("trunc-rep", role, state, specs[0]["label"]), res.applied > 0)
 
 
+def phase_migration(ctx, R, orc, r, n):
+    """connection-ID switching by the peer: packets addressed to each of the victim's issued
+    connection IDs, to retired and to unknown ones, in states where the victim holds no / one /
+    several / no-longer-any spare peer connection ID (the migration block of receive_datagram
+    calls change_connection_id())"""
+    V = R.V
+    states = R.SPARE_CID_STATES + ["connected", "streams", "keyupdate", "closepending"]
+    dcids = [f"host:{i}" for i in range(8)] + ["retired:0", "retired:1", "unknown:8", "unknown:0", "unknown:20",
+                                               "unknown:7", None]
+    payloads = [b"\x01", b"\x00", b"\x1a" + bytes(8), b"\x19" + V(1), b"\x19" + V(2), b"\x19" + V(7),
+                b"\x18" + V(9) + V(0) + bytes([8]) + bytes([9] * 8) + bytes(16),
+                b"\x18" + V(3) + V(3) + bytes([8]) + bytes([3] * 8) + bytes(16), b"\x08\x00hello"]
+    k = 0
+    for role in ("server", "client"):
+        for state in states:
+            for _ in range(n):
+                k += 1
+                specs = []
+                for _ in range(r.choice([1, 2, 4, 9])):
+                    spec = {"k": "frames", "hex": r.choice(payloads).hex(), "dcid": r.choice(dcids)}
+                    if spec["dcid"] is None:
+                        del spec["dcid"]
+                    if r.random() < 0.15:
+                        spec["addr"] = ["9.9.9.9", 999]
+                    specs.append(spec)
+                if k % 3 == 0:      # systematically: a plain PING to every other issued CID, twice
+                    specs = [{"k": "frames", "hex": "01", "dcid": f"host:{i}"} for i in range(8)] * 2
+                scn = {"role": role, "state": state, "seed": r.randrange(1000), "post": r.choice(["silent", "continue"]),
+                       "qlog": r.random() < 0.2, "post_api": r.random() < 0.5, "interleave": r.choice([0, 0, 2]),
+                       "inputs": specs}
+                res = R.run_scenario(scn)
+                orc.judge(R, scn, res)
+                ctx.count(("migration", role, state, json.dumps(specs, sort_keys=True)), res.applied > 0)
+
+
 def phase_transport_parameters(ctx, R, orc, r, limit):
     muts = R.tp_mutations(r)
     r.shuffle(muts)
@@ -257,7 +292,7 @@ def main(tier):
     orc = Oracle(ctx)
     t0 = time.time()
     cat = R.catalogue(r, n_random=40 if not thorough else 400)
-    all_states = R.STATES + R.ZERO_RTT_STATES
+    all_states = R.STATES + R.SPARE_CID_STATES + R.ZERO_RTT_STATES
 
     # (a) datagrams
     phase_datagrams(ctx, R, orc, r, 40 if not thorough else 150, all_states)
@@ -269,11 +304,15 @@ def main(tier):
         for state in all_states:
             for epoch in ("ONE_RTT", "INITIAL", "HANDSHAKE", "ZERO_RTT"):
                 cells.append((role, state, epoch))
-    phase_frames(ctx, R, orc, r, cat, 160 if not thorough else None, cells)
+    phase_frames(ctx, R, orc, r, cat, 100 if not thorough else None, cells)
     ctx.notes["t_frames"] = round(time.time() - t0, 1)
     phase_truncate_repeat(ctx, R, orc, r, cat, 800 if not thorough else 12000,
                           ["hs2", "hs4", "connected", "streams", "keyupdate", "closepending", "zrtt1"])
     ctx.notes["t_trunc"] = round(time.time() - t0, 1)
+
+    # (b') connection-ID switching with no / one / consumed spare peer connection IDs
+    phase_migration(ctx, R, orc, r, 20 if not thorough else 150)
+    ctx.notes["t_migration"] = round(time.time() - t0, 1)
 
     # (c) transport parameters
     phase_transport_parameters(ctx, R, orc, r, 120 if not thorough else 10 ** 6)
@@ -318,7 +357,9 @@ def main(tier):
         "Negotiation, mutated/truncated/coalesced genuine datagrams (recorded by the sim), packets built with the "
         "peer's live keys in every epoch carrying every frame type with boundary fields (catalogue of "
         f"{len(cat)} payloads), truncations at random cut points, repetitions inside a packet and as packet "
-        "trains, padded variants, crafted transport parameters announced by a real peer; after the inputs the "
+        "trains, padded variants, packets addressed to each issued / retired / unknown connection ID of the victim "
+        "while it holds no, one, several or no-longer-any spare peer connection ID (peer withholding "
+        "NEW_CONNECTION_ID; spares consumed by change_connection_id()), crafted transport parameters announced by a real peer; after the inputs the "
         "victim's timer/transmit/event calls are driven until ConnectionTerminated. Non-trivial = the input was "
         "deliverable (attacker had keys / bytes non-empty); distinct by (role,state,epoch,input) hash.")
     # TLS message layer: only tls.Alert may leave Context.handle_message
